@@ -71,6 +71,14 @@ def guises(ns, name):
 
 
 def check_namespace(ctx, ns, label, default_ns):
+    # every constant NAME of unyt.physical_constants is in every filled namespace (names read off the module, not off the
+    # table's alias lists: w9 made one alias list a one-shot iterator that only the import-time call could read)
+    for nm, q0 in list(default_ns.items()):
+        if nm.startswith("_") or not (hasattr(q0, "d") and hasattr(q0, "units")):
+            continue
+        ctx.count("evaluations")
+        if nm not in ns:
+            ctx.violation(f"C15|guise|ns={label}|mode=constant-name-of-the-module-missing-from-namespace", {"part": "guises", "namespace": label, "name": nm}, nm, None)
     for cname, (value, unit_name, aliases) in TABLE.items():
         ref = None
         for nm in [cname] + list(aliases):
